@@ -226,7 +226,8 @@ func checkC17(c C17Case, o *Obs) error {
 		// earlier in the process a call was given a file with a bad record after good ones, and
 		// the program recovered from the panic
 		catch(func() {
-			mash.Sequences(c.N, c.K, append(slices.Clone(seqs), []byte("ACGTTGCAGATTACAGATTACAXGATTACAGATTACAACGTTGCAGATTACAGATTACAGATTACAGATTACA"))...)
+			mash.Sequences(c.N, c.K, []byte("GGCATTCGAGGCTTAACCGATAGGCTATCGGATACCGATTTAGCGGCATATCGCGTAGCTAGGATCTTAGCGGCTAAAGTCGCGATTCCAGGTCTGAAGCTCCGATAGGA"),
+				[]byte("ACGTTGCAGATTACAGATTACAXGATTACAGATTACAACGTTGCAGATTACAGATTACAGATTACAGATTACAGATTACAGATTACAGATTACAGATTACAGATTACAGA"))
 		})
 	}
 	base, err := sketchView(c.N, c.K, seqs)
